@@ -2,6 +2,8 @@
 
 * setIsStrict        — `Processor.set` raises for a name that does not exist: somewhere in the method an `if`
                        whose test calls `self.has(...)` / `hasattr(...)` guards a `raise` (either branch).
+* setRefusesClassAttrs — `Processor.set` also raises when the last part of the key is a method / class-level attribute
+                       (an `if` whose test inspects `type(obj)` guards a `raise`).
 * enabledSweepFixed  — in `Observation.validate_steps` the `if` that slices `key[: key.find(".arguments")]`
                        only does so when its test also mentions ".arguments" (so `find` cannot be −1).
 * entryPointsUseSet  — sweep (`create_new_processor`), calibration (`update_processor`) and overrides
@@ -13,6 +15,7 @@ import ast
 from extract import find_class, find_func, lbool, parse
 
 FALLBACK = ("def setIsStrict : Bool := false\n"
+            "def setRefusesClassAttrs : Bool := false\n"
             "def enabledSweepFixed : Bool := false\n"
             "def entryPointsUseSet : Bool := false")
 
@@ -39,6 +42,18 @@ def set_is_strict() -> bool:
         if isinstance(n, ast.If) and _calls(n.test, {"has", "hasattr"}):
             if _has_raise(n.body) or _has_raise(n.orelse):
                 return True
+    return False
+
+
+def set_refuses_class_attrs() -> bool:
+    """`Processor.set` raises when the last part of the key is an attribute of the object's CLASS that is not a
+    property: some `if` whose test looks at `type(obj)` (or uses inspect.getattr_static) guards a `raise`."""
+    fn = find_func(find_class(parse("pyxel/pipelines/processor.py"), "Processor"), "set")
+    if fn is None:
+        return False
+    for n in ast.walk(fn):
+        if isinstance(n, ast.If) and _calls(n.test, {"type", "getattr_static"}) and (_has_raise(n.body) or _has_raise(n.orelse)):
+            return True
     return False
 
 
@@ -88,5 +103,6 @@ def entry_points_use_set() -> bool:
 
 def gen() -> str:
     return (f"def setIsStrict : Bool := {lbool(set_is_strict())}\n"
+            f"def setRefusesClassAttrs : Bool := {lbool(set_refuses_class_attrs())}\n"
             f"def enabledSweepFixed : Bool := {lbool(enabled_sweep_fixed())}\n"
             f"def entryPointsUseSet : Bool := {lbool(entry_points_use_set())}")
